@@ -311,6 +311,13 @@ impl World {
                     .unwrap();
             }
         }
+        // sanity of the raw-storage projection: what was just registered must be readable
+        let fs = w.factory_state();
+        let registered = denoms.iter().filter(|(_, _, reg)| *reg).count();
+        if fs["native"].as_array().map(|a| a.len()).unwrap_or(0) != registered || fs["owner"].as_str().unwrap_or("") != owner {
+            eprintln!("harness: raw-storage projection of the factory (allow-list / config) does not match the setup");
+            std::process::exit(3);
+        }
         // pairs
         if let Some(ps) = setup["pairs"].as_array() {
             for p in ps {
